@@ -7,13 +7,20 @@ Tie (every run):
   * function level ("fn" cases, batched): the REAL `nemoguardrails.server.api._get_rails([id])` (with
     `RailsConfig.from_path` / `LLMRails` replaced by recording stubs), `os.path.join/normpath/abspath/commonprefix`
     and `re.search(<regex source>)` against the Lean `Server` model on generated roots / ids / paths.
-  * end to end ("e2e" cases): request sequences through FastAPI `TestClient` on the real
-    `nemoguardrails.server.api.app` with a real `MemoryStore` registered; responses, paths given to `from_path`,
-    messages given to `generate_async`, cache keys and the final datastore are compared with the model's `run`.
+  * end to end ("e2e" cases): HISTORIES through FastAPI `TestClient` on freshly executed copies of the real module
+    `nemoguardrails/server/api.py` (one per server process / restart) that share one datastore (a real `MemoryStore` or a
+    `DataStore` subclass): requests, external changes of stored keys (set / append / delete / truncate / redact), datastore
+    swaps, process switches, restarts, rails-cache evictions, pre-seeded stores; responses, paths given to `from_path`,
+    messages given to `generate_async`, the rails cache of every process and the final datastore are compared with the
+    model's `runOps` (Models/ServerOps.lean).
+  * static: statement order in `_get_rails`; module-level state reachable from `chat_completion` / `register_datastore` must be
+    within what the model has; shape of the three thread statements.
 Oracle (written from the property statement, independent of the model): every path handed to `from_path`
 is the configured root or lies below it (`os.path.abspath` + component prefix); a request naming an id whose
-joined path leaves the root gets the fixed reply; per thread id, the messages handed to the LLM are
-history ++ new and the datastore finally holds exactly `"thread-"+id -> concatenation of (new ++ [reply])`.
+joined path leaves the root gets the fixed reply; with a thread id, the messages handed to the LLM are what the datastore holds
+for the thread (read directly from the store object right before the request) ++ new, right after the request the store holds
+that list ++ [reply] (unchanged when no turn completed), no other key changed, and the store always equals the store of the
+statement (initial content + operations of other actors + completed turns), whichever process answered.
 """
 import json
 import logging
@@ -28,7 +35,9 @@ RULE = ("fn: batches of config ids built from path-ish fragments (separators, do
         "paths, root-relative escapes such as ../<root>2/x, empty, very long) over 12 roots (absolute, relative, trailing slash, "
         "'/', '//', un-normalised), evaluated by the real _get_rails + os.path + re; plus all ids of length<=3 (quick) / <=4 (thorough) "
         "over {., /, \\, a, %}. e2e: 3-12 requests over 5 thread ids (prefix-related, unicode, too short/long), config_id/config_ids/"
-        "default/single-config mode, context, streaming, failing from_path / generate. non-trivial = fn batch with both accepted and "
+        "default/single-config mode, context, streaming, failing from_path / generate, interleaved with operations of other actors on the shared "
+        "datastore (set/append/del/take/redact of a key, register_datastore swaps, pre-seeded stores incl. 120-1500-message threads), 1-3 server "
+        "processes (api.py executed afresh per process), restarts, rails-cache evictions; id lists that glue into a rejected id; escapes in 25 encodings. non-trivial = fn batch with both accepted and "
         "rejected ids, or e2e sequence with >=2 completed turns on one thread or a rejected id; distinct = distinct case JSON.")
 TRUSTED_BASE = [
     "translator harness/translate/c20.py (regex source parsed with re._parser; constants by AST path)",
@@ -38,8 +47,9 @@ TRUSTED_BASE = [
 ASSUMPTIONS = [
     "POSIX path semantics; the filesystem (symlinks, what from_path reads below the directory it is given) is not modelled",
     "streaming requests do not update the thread (TODO in chat_completion); the thread statement is about completed non-streaming turns",
+    "values written to the datastore by other actors are JSON lists of message objects; operations and requests are sequential",
     "messages are JSON values that survive json.dumps/json.loads unchanged; request `messages` is a list",
-    "the auto-reload watcher (only removes cache entries) and the redis/other DataStore back-ends are not modelled",
+    "the auto-reload watcher thread is represented by its effect (deleting a cache entry: the evict operation); the redis/other DataStore back-ends are not modelled",
 ]
 EXHAUSTIVE = {"quick": True, "thorough": True}
 
@@ -95,6 +105,8 @@ def static_tie():
         if extra:
             probs.append(f"{entry} can reach module-level state {extra} that the model does not have (model: rails cache + datastore only; "
                          f"theorem chat_step_reads_store says a turn depends on nothing else)")
+    if inf.get("thread_shape") != tr.THREAD_SHAPE:
+        probs.append(f"chat_completion no longer reads the thread from the datastore once, prepends it and writes back messages + [reply]: {inf.get('thread_shape')}")
     if inf["loop_order"] != ["regex", "commonprefix", "from_path"]:
         probs.append(f"_get_rails loop no longer runs regex test, common-prefix test, from_path in this order: {inf['loop_order']}")
     return probs
